@@ -15,4 +15,4 @@ for f in glob.glob('/verif/.cache/alt/$TAG/replays/$CHK/*.json')[:1]:
     d=json.load(open(f)); print('code',d.get('verdict_code'),d.get('meaning'),'|',d.get('kind')); print(json.dumps(d.get('case'))[:600])
 PY
 git -C /repo worktree remove --force $WT
-rm -rf /verif/.cache/alt/$TAG
+[ -n "$KEEP_ALT" ] || rm -rf /verif/.cache/alt/$TAG
